@@ -831,6 +831,33 @@ func (c *specCtx) callExpr(x *ast.CallExpr) (tv, error) {
 			return tv{a.Term, types.NewPointer(T)}, nil
 		}
 		return tv{Term{fmt.Sprintf("(ipay_I %s)", a.S), SInt}, types.NewPointer(T)}, nil
+	case "sliceof":
+		// sliceof(x, "pkg/path.Type"): the value x (a ghost, say) read as []Type
+		a, err := c.tr(args[0])
+		if err != nil {
+			return tv{}, err
+		}
+		lit, ok := args[1].(*ast.BasicLit)
+		if !ok {
+			return tv{}, fmt.Errorf("sliceof needs a string literal")
+		}
+		name, _ := strconv.Unquote(lit.Value)
+		i := strings.LastIndex(name, ".")
+		if i < 0 || a.Sort != SV {
+			return tv{}, fmt.Errorf("sliceof: bad type name %q or argument", name)
+		}
+		var T types.Type
+		for _, p := range fr.enc.prog.AllPackages() {
+			if p.Pkg.Path() == name[:i] {
+				if obj := p.Pkg.Scope().Lookup(name[i+1:]); obj != nil {
+					T = obj.Type()
+				}
+			}
+		}
+		if T == nil {
+			return tv{}, fmt.Errorf("sliceof: type %q not found", name)
+		}
+		return tv{a.Term, types.NewSlice(T)}, nil
 	case "as_slice":
 		a, err := c.tr(args[0])
 		if err != nil {
@@ -874,6 +901,21 @@ func (c *specCtx) callExpr(x *ast.CallExpr) (tv, error) {
 			return tv{}, fmt.Errorf("isfresh() not available here")
 		}
 		return tv{Term{fmt.Sprintf("(>= %s %s)", a.S, c.old.hw), SBool}, boolT}, nil
+	case "contains":
+		// contains(s, x): some element of the slice s (elements of sort V) is x
+		sl, err := c.tr(args[0])
+		if err != nil {
+			return tv{}, err
+		}
+		x, err := c.tr(args[1])
+		if err != nil {
+			return tv{}, err
+		}
+		st, ok := sl.ty.Underlying().(*types.Slice)
+		if !ok || sortOf(st.Elem()) != SV || x.Sort != SV {
+			return tv{}, fmt.Errorf("contains() needs a slice with elements of sort V and such an element")
+		}
+		return tv{Term{fmt.Sprintf("(sl_has %s %s)", sl.S, x.S), SBool}, boolT}, nil
 	case "isempty":
 		m, err := c.tr(args[0])
 		if err != nil {
